@@ -174,6 +174,9 @@ class W:
         if c == 16:
             O[it[1]].offset = it[2]
             return [0]
+        if c == 29:
+            O[it[1]].initialized_size = it[2]
+            return [0]
         if c == 17:
             O[it[1]].name = self.name(it[2])
             return [0]
